@@ -426,6 +426,20 @@ func (ac *AsyncCall) retire(response *Response) {
 	close(ac.ready)
 }
 
+// Failed reports, without blocking, the error the call has already completed
+// with, if any: a call that could not even be written (the connection is
+// closed or closing) is complete by the time [Connection.Call] returns.
+func (ac *AsyncCall) Failed() error {
+	select {
+	case <-ac.ready:
+		if ac.response.Error != nil {
+			return ac.response.Error
+		}
+	default:
+	}
+	return nil
+}
+
 // Await waits for (and decodes) the results of a Call.
 // The response will be unmarshaled from JSON into the result.
 //
